@@ -136,11 +136,19 @@ class LibTypes:
         d = os.path.join(self.dir, 'scripts', 'entity_defs'); os.makedirs(d)
         self.aliases = aliases or {}
         done = {}
-        body = ''
+        body = ''; ext = ''
         for n, t in self.aliases.items():
-            body += type_xml(t, n, rng, done) + '\n'
+            x = type_xml(t, n, rng, done) + '\n'
+            if rng is not None and rng.random() < 0.4:
+                # alias.xml declares a DECOY of another size under this name and alias_ext.xml re-declares the name with the real type:
+                # the later file wins for every mention, also inside composites that alias.xml itself declares (resolution is lazy)
+                decoy = ('u', 8) if t != ('u', 8) else ('u', 1)
+                body += type_xml(decoy, n, rng, {}) + '\n'; ext += x
+            else: body += x
             done[n] = t
         with open(os.path.join(d, 'alias.xml'), 'w') as f: f.write('<root>\n' + body + '</root>\n')
+        if ext:
+            with open(os.path.join(d, 'alias_ext.xml'), 'w') as f: f.write('<root>\n' + ext + '</root>\n')
         self.alias = Alias(self.dir)
         self.rng = rng
     def make(self, t):
